@@ -237,4 +237,6 @@ pub struct Outcome {
     pub stats: Stats,
     /// Some(reason): the harness itself is inconsistent (exit 2)
     pub harness_error: Option<String>,
+    /// for enumerating checks: the explicit single run that failed
+    pub replay_case: Option<Case>,
 }
